@@ -215,6 +215,10 @@ def judge(ctx, results, site_of=lambda tr: "%s/%s" % (tr["algo"], tr["form"])):
             key = "%s/%s" % (site_of(tr), clause)
             if clause == "NoException":
                 key += "/" + str(ev.get("msg", "")).split(":")[0]
+            if clause.startswith("Iterate.") and tr.get("initXY") and tr.get("ti") and tr.get("k") and tr["k"] > len(tr["pts"]):
+                # its own class (a recorded finding, see known_findings.json): warm start from centers that are not
+                # frames, more clusters requested than there are frames, triangle shortcut
+                key += "/off-data-init+more-clusters-than-frames+shortcut"
             if own is None or clause.startswith(own):
                 ctx.violation({"kind": "trace-rejected", "clause": clause, "event_no": l, "event": ev, "trace": tr,
                                "how": "Trace_Cluster.tla clause fails on the recorded step"}, key=key)
